@@ -18,7 +18,7 @@ package servicediscovery
 //@ props C10
 //@ trusted
 //@ requires s != nil
-//@ ensures len(result) <= 65536
+//@ ensures len(result) <= 65536 && forall j int :: 0 <= j && j < len(result) ==> has(s.services, result[j]) && s.services[result[j]] != nil
 //@ modifies nothing
 
 //@ iface servicediscovery.Client.Rebalance
@@ -31,6 +31,7 @@ package servicediscovery
 //@ let R = servicediscovery.Client.Rebalance
 //@ modifies s.info, calls("servicediscovery.(*serviceDiscovery).SetInfo"), calls(EventBus.Bus.Publish), calls(servicediscovery.Client.Rebalance), calls("servicediscovery.(*serviceDiscovery).GetAll")
 //@ loop 1
+//@   invariant.round_complete ncalls("servicediscovery.(*serviceDiscovery).SetInfo") > old(ncalls("servicediscovery.(*serviceDiscovery).SetInfo")) ==> ncalls(servicediscovery.Client.Rebalance) - countat(servicediscovery.Client.Rebalance, "servicediscovery.(*serviceDiscovery).SetInfo", ncalls("servicediscovery.(*serviceDiscovery).SetInfo") - 1) == argat("servicediscovery.(*serviceDiscovery).SetInfo", ncalls("servicediscovery.(*serviceDiscovery).SetInfo") - 1, totalMembers) - 1
 //@   invariant.leader_is_one forall i int :: old(ncalls("servicediscovery.(*serviceDiscovery).SetInfo")) <= i && i < ncalls("servicediscovery.(*serviceDiscovery).SetInfo") ==> argat("servicediscovery.(*serviceDiscovery).SetInfo", i, memberNumber) == 1
 //@   invariant.followers_from_two forall i int :: old(ncalls(servicediscovery.Client.Rebalance)) <= i && i < ncalls(servicediscovery.Client.Rebalance) ==> 2 <= argat(servicediscovery.Client.Rebalance, i, memberNumber) && argat(servicediscovery.Client.Rebalance, i, memberNumber) <= argat(servicediscovery.Client.Rebalance, i, totalMembers)
 //@   modifies s.info, calls("servicediscovery.(*serviceDiscovery).SetInfo"), calls(EventBus.Bus.Publish), calls(servicediscovery.Client.Rebalance), calls("servicediscovery.(*serviceDiscovery).GetAll")
@@ -38,6 +39,7 @@ package servicediscovery
 //@   invariant.round len(names) <= 9223372036854775805 && totalMembers == len(names) + 1 && -1 <= rangeindex && rangeindex <= len(names) - 1
 //@   invariant.leader_is_one forall i int :: old(ncalls("servicediscovery.(*serviceDiscovery).SetInfo")) <= i && i < ncalls("servicediscovery.(*serviceDiscovery).SetInfo") ==> argat("servicediscovery.(*serviceDiscovery).SetInfo", i, memberNumber) == 1
 //@   invariant.followers_from_two forall i int :: old(ncalls(servicediscovery.Client.Rebalance)) <= i && i < ncalls(servicediscovery.Client.Rebalance) ==> 2 <= argat(servicediscovery.Client.Rebalance, i, memberNumber) && argat(servicediscovery.Client.Rebalance, i, memberNumber) <= argat(servicediscovery.Client.Rebalance, i, totalMembers)
+//@   invariant.exact ncalls(servicediscovery.Client.Rebalance) - countat(servicediscovery.Client.Rebalance, "servicediscovery.(*serviceDiscovery).SetInfo", ncalls("servicediscovery.(*serviceDiscovery).SetInfo") - 1) == rangeindex + 1
 //@   invariant.announced ncalls("servicediscovery.(*serviceDiscovery).SetInfo") > old(ncalls("servicediscovery.(*serviceDiscovery).SetInfo")) && argat("servicediscovery.(*serviceDiscovery).SetInfo", ncalls("servicediscovery.(*serviceDiscovery).SetInfo") - 1, totalMembers) == totalMembers && countat(servicediscovery.Client.Rebalance, "servicediscovery.(*serviceDiscovery).SetInfo", ncalls("servicediscovery.(*serviceDiscovery).SetInfo") - 1) <= ncalls(servicediscovery.Client.Rebalance)
 //@   invariant.this_round forall i int :: countat(servicediscovery.Client.Rebalance, "servicediscovery.(*serviceDiscovery).SetInfo", ncalls("servicediscovery.(*serviceDiscovery).SetInfo") - 1) <= i && i < ncalls(servicediscovery.Client.Rebalance) ==> argat(servicediscovery.Client.Rebalance, i, totalMembers) == totalMembers && argat(servicediscovery.Client.Rebalance, i, memberNumber) <= rangeindex + 2
 //@   invariant.distinct forall i int, j int :: countat(servicediscovery.Client.Rebalance, "servicediscovery.(*serviceDiscovery).SetInfo", ncalls("servicediscovery.(*serviceDiscovery).SetInfo") - 1) <= i && i < j && j < ncalls(servicediscovery.Client.Rebalance) ==> argat(servicediscovery.Client.Rebalance, i, memberNumber) < argat(servicediscovery.Client.Rebalance, j, memberNumber)
